@@ -387,9 +387,11 @@ def isCoordLit (s : Str) : Bool :=
   | [a, b] => isCanonNat a && b = ['5']
   | _ => false
 
-/-- "x": 10 (section "Position Mark") or "x": "10.5" (section "Compiling an example") -/
-def coordShape : J → Bool
-  | .int _ => true
+/-- "x": 10 (section "Position Mark", allowed when `ints`) or "x": "10.5" (section "Compiling an example").
+All shape predicates take `ints`: `true` = the documented structure, `false` = the documented structure with position
+coordinates written as strings (the only form the decompile command reads, see `cli_posmark_int_counterexample`). -/
+def coordShapeG (ints : Bool) : J → Bool
+  | .int _ => ints
   | .str s => isCoordLit s.toList
   | _ => false
 
@@ -398,7 +400,7 @@ def langShape : List (String × J) → Bool
   | (_, v) :: rest => isStr v && langShape rest
 
 /-- section "Argument types" -/
-def paramShape : J → Bool
+def paramShapeG (ints : Bool) : J → Bool
   | .int _ => true
   | .obj kv =>
     match look kv "type", look kv "value" with
@@ -408,25 +410,24 @@ def paramShape : J → Bool
     | some (.str "LANG_STRING"), some (.obj l) => langShape l
     | some (.str "POSITION_MARK"), some (.obj m) =>
       (match look m "name" with | some (.str _) => true | _ => false)
-      && (match look m "x" with | some x => coordShape x | none => false)
-      && (match look m "y" with | some y => coordShape y | none => false)
+      && (match look m "x" with | some x => coordShapeG ints x | none => false)
+      && (match look m "y" with | some y => coordShapeG ints y | none => false)
     | _, _ => false
   | _ => false
 
-def paramsShape : List J → Bool
+def paramsShapeG (ints : Bool) : List J → Bool
   | [] => true
-  | p :: ps => paramShape p && paramsShape ps
+  | p :: ps => paramShapeG ints p && paramsShapeG ints ps
 
-/-- section "Structure of operations" -/
-def opShape : J → Bool
+def opShapeG (ints : Bool) : J → Bool
   | .obj kv =>
     (match look kv "opcode" with | some (.str _) => true | _ => false)
-    && (match look kv "params" with | some (.arr l) => paramsShape l | _ => false)
+    && (match look kv "params" with | some (.arr l) => paramsShapeG ints l | _ => false)
   | _ => false
 
-def opsShape : List J → Bool
+def opsShapeG (ints : Bool) : List J → Bool
   | [] => true
-  | o :: os => opShape o && opsShape os
+  | o :: os => opShapeG ints o && opsShapeG ints os
 
 /-- "target_id": either a string or integer argument data type -/
 def targetShape : J → Bool
@@ -435,9 +436,9 @@ def targetShape : J → Bool
   | _ => false
 
 /-- section "Routine types" -/
-def routineShape : J → Bool
+def routineShapeG (ints : Bool) : J → Bool
   | .obj kv =>
-    (match look kv "ops" with | some (.arr l) => opsShape l | _ => false)
+    (match look kv "ops" with | some (.arr l) => opsShapeG ints l | _ => false)
     && (match look kv "type" with
       | some (.str "COROUTINE") => (match look kv "name" with | some (.str _) => true | _ => false)
       | some (.str "GENERIC") => true
@@ -447,9 +448,9 @@ def routineShape : J → Bool
       | _ => false)
   | _ => false
 
-def routinesShape : List J → Bool
+def routinesShapeG (ints : Bool) : List J → Bool
   | [] => true
-  | r :: rs => routineShape r && routinesShape rs
+  | r :: rs => routineShapeG ints r && routinesShapeG ints rs
 
 /-- section "Structure of settings" -/
 def settingsShape : J → Bool
@@ -465,11 +466,17 @@ def settingsShape : J → Bool
   | _ => false
 
 /-- section "General structure" (additional members are not forbidden by the documentation) -/
-def DocShape : J → Bool
+def DocShapeG (ints : Bool) : J → Bool
   | .obj kv =>
     (match look kv "settings" with | some s => settingsShape s | none => false)
-    && (match look kv "routines" with | some (.arr l) => routinesShape l | _ => false)
+    && (match look kv "routines" with | some (.arr l) => routinesShapeG ints l | _ => false)
   | _ => false
+
+/-- the documented structure -/
+abbrev DocShape : J → Bool := DocShapeG true
+
+/-- the documented structure with string position coordinates -/
+abbrev DocShapeStr : J → Bool := DocShapeG false
 
 /-! ## offsets, positions, jump targets -/
 
